@@ -233,6 +233,24 @@ theorem user_requests_one_per_batch (s : CState) (h : CReach s) (u : String) :
   simp only [decide_eq_true_eq] at hua hub
   simp [reqKey, heq, hua, hub]
 
+/-- the deprecated AllUnstakeRequests / AllUnstakeRequestsV2 queries: without a limit the answer holds
+every open request of every user exactly once (a permutation of the request table, in the order of the
+by-user index), whatever cursor is supplied; with a limit it is a prefix of that answer -/
+theorem all_requests_complete (s : CState) (cursor : Option Nat) (h : s.reqs.length ≤ U32.max) :
+    (queryAllRequests s cursor none).Perm s.reqs := by
+  unfold queryAllRequests
+  simp only [Option.getD_none]
+  have hl : (s.reqs.mergeSort reqKeyLe).length ≤ U32.max := by rw [List.length_mergeSort]; exact h
+  rw [List.take_of_length_le hl]
+  exact List.mergeSort_perm _ _
+
+theorem all_requests_limit_is_prefix (s : CState) (cursor : Option Nat) (n : Nat) (h : n ≤ U32.max) :
+    queryAllRequests s cursor (some n) = (queryAllRequests s cursor none).take n := by
+  unfold queryAllRequests
+  simp only [Option.getD_some, Option.getD_none, List.take_take]
+  congr 1
+  omega
+
 /-- non-vacuity: three batches, page size 1 with a status filter walks all matches -/
 example :
     let m : AMap Nat := [(1, 10), (2, 20), (3, 30)]
